@@ -271,7 +271,14 @@ def _mcp_check(tier, seed):
         expect['parse'] = {'kind': 'result', 'digest': cli_digest(['parse', 'g1.cgt'], lambda j: j)}
         expect['parse_json'] = expect['parse']
         open(os.path.join(root, 'ref', 'g2.cgt'), 'w').write(G2)
-        expect['calc_mixed'] = {'kind': 'result', 'digest': cli_digest(['report', '--format', 'json', '--year', '2024', 'g2.cgt'], core)}
+        try:
+            expect['calc_mixed'] = {'kind': 'result', 'digest': cli_digest(['report', '--format', 'json', '--year', '2024', 'g2.cgt'], core)}
+        except ToolError as e:
+            # the CLI itself refuses the report of a configured year because ANOTHER year of the history is unconfigured
+            for pr in ('C07', 'C20'):
+                findings.append({'prop': pr, 'kind': 'year_report_refused', 'case': 0, 'input': G2, 'data': {},
+                                 'detail': f'cgt-tool report --year 2024 fails on a ledger whose other year lies outside the exemption table: {str(e)[-300:]}'})
+            expect['calc_mixed'] = {'kind': 'error', 'digest': ''}
         for n in ('bad_args', 'bad_dsl', 'bad_json', 'bad_json_wide_a', 'bad_json_wide_b', 'bad_json_wide_c', 'uncovered', 'no_exemption', 'big_year', 'explain_missing', 'unknown_tool', 'res_bad'):
             expect[n] = {'kind': 'error', 'digest': ''}
         # every class expected to fail is also sent alone: it must be ANSWERED (C15/C20: a tool call never dies silently)
